@@ -551,6 +551,94 @@ impl C12 {
         cx.tag("degrees2");
     }
 
+
+    /// three nested placements at general angles where the first two together make a right-angle orientation:
+    /// top places `mid` at `deg` (x reflect), `mid` places `low` at the angle that brings the product of the two
+    /// back to a multiple of 90 degrees (90q - deg, or deg + 90q under a reflecting parent; x reflect) at a
+    /// non-zero offset, `low` places the leaf at a general angle and offset. Cascaded Transforms and the real
+    /// Layout::flatten against the exact real composition (rounded once), for every point.
+    fn degrees3(&self, deg: u32, cx: &mut Cx) {
+        let pts: Vec<P> = vec![(0, 0), (1, 0), (0, 1), (3, -2), (-6, -5), (100, 7), (-1000, 999)];
+        let mid_offs: [P; 2] = [(7, 3), (-250, 1001)];
+        let top_off: P = (17, -1000);
+        let leaf_off: P = (3, 7);
+        let mut layers = Layers::default();
+        let lk = layers.add(Layer::from_num(1));
+        let apply = |r: bool, d: u32, off: P, p: (f64, f64)| -> (f64, f64) {
+            let (c, s) = Self::cs(d);
+            let y = if r { -p.1 } else { p.1 };
+            (c * p.0 - s * y + off.0 as f64, s * p.0 + c * y + off.1 as f64)
+        };
+        for pr in [false, true] {
+            for q in 0..4u32 {
+                for mr in [false, true] {
+                    for mo in mid_offs {
+                        let mdeg = if pr { (deg + 90 * q) % 360 } else { (360 + 90 * q - deg % 360) % 360 };
+                        let ldeg = (deg + 45 + 8 * q) % 360;
+                        let key = format!("deg3:{deg}:{}:{q}:{}:{}", pr as u8, mr as u8, mo.0);
+                        cx.stats.executions += 1;
+                        cx.stats.transitions += 4;
+                        let want = |p: P| -> (f64, f64) { apply(pr, deg, top_off, apply(mr, mdeg, mo, apply(false, ldeg, leaf_off, (p.0 as f64, p.1 as f64)))) };
+                        let leaf = Layout {
+                            name: "leaf".into(),
+                            insts: vec![],
+                            elems: vec![Element { net: None, layer: lk, purpose: LayerPurpose::Drawing, inner: Shape::Polygon(Polygon { points: pts.iter().map(|p| rp(*p)).collect() }) }],
+                            annotations: vec![],
+                        };
+                        let leafc: Ptr<Cell> = Ptr::new(Cell::from(leaf));
+                        let low = Layout { name: "low".into(), insts: vec![Instance { inst_name: "l".into(), cell: leafc, loc: rp(leaf_off), reflect_vert: false, angle: Some(ldeg as f64) }], elems: vec![], annotations: vec![] };
+                        let lowc: Ptr<Cell> = Ptr::new(Cell::from(low));
+                        let mid = Layout { name: "mid".into(), insts: vec![Instance { inst_name: "m".into(), cell: lowc, loc: rp(mo), reflect_vert: mr, angle: Some(mdeg as f64) }], elems: vec![], annotations: vec![] };
+                        let midc: Ptr<Cell> = Ptr::new(Cell::from(mid));
+                        let top = Layout { name: "top".into(), insts: vec![Instance { inst_name: "p".into(), cell: midc, loc: rp(top_off), reflect_vert: pr, angle: Some(deg as f64) }], elems: vec![], annotations: vec![] };
+                        let res = guard(|| {
+                            let t01 = Transform::cascade(&Transform::from_instance(&rp(top_off), pr, Some(deg as f64)), &Transform::from_instance(&rp(mo), mr, Some(mdeg as f64)));
+                            let t = Transform::cascade(&t01, &Transform::from_instance(&rp(leaf_off), false, Some(ldeg as f64)));
+                            let a: Vec<P> = pts.iter().map(|p| ip(&rp(*p).transform(&t))).collect();
+                            let f = top.flatten().map_err(|e| format!("{e:?}"))?;
+                            let b: Vec<P> = match f.get(0).map(|e| &e.inner) {
+                                Some(Shape::Polygon(pg)) => pg.points.iter().map(ip).collect(),
+                                _ => return Err("flatten did not return the polygon".to_string()),
+                            };
+                            Ok((a, b))
+                        });
+                        match res {
+                            Err(p) => cx.fail(&key, "degrees3-panic", None, || p.short(), || Value::Null),
+                            Ok(Err(e)) => cx.fail(&key, "degrees3-error", None, || e.clone(), || Value::Null),
+                            Ok(Ok((a, b))) => {
+                                cx.stats.evaluations += 2 * pts.len() as u64;
+                                let mut bad = None;
+                                for (k, p) in pts.iter().enumerate() {
+                                    let w = want(*p);
+                                    for (which, img) in [("cascade", &a), ("flatten", &b)] {
+                                        let (gx, gy) = (img[k].0 as f64, img[k].1 as f64);
+                                        if (gx - w.0).abs() > 0.5 + 1e-5 || (gy - w.1).abs() > 0.5 + 1e-5 {
+                                            bad = Some((which, *p, img[k], w));
+                                        }
+                                    }
+                                }
+                                if let Some((which, p, got, w)) = bad {
+                                    cx.outcome("degrees3-mismatch");
+                                    cx.fail(
+                                        &key,
+                                        &format!("degrees3-{which}"),
+                                        None,
+                                        || format!("{which}: top(reflect={pr}, angle={deg}, loc={top_off:?}) o mid(reflect={mr}, angle={mdeg}, loc={mo:?}) o low(angle={ldeg}, loc={leaf_off:?}) maps {p:?} to {got:?}; exact composition ({:.4},{:.4}), tolerance 0.5", w.0, w.1),
+                                        || json!({"top": {"reflect": pr, "angle": deg, "loc": top_off}, "mid": {"reflect": mr, "angle": mdeg, "loc": mo}, "low": {"angle": ldeg, "loc": leaf_off}, "point": p, "got": got, "want": [w.0, w.1]}),
+                                    );
+                                } else {
+                                    cx.outcome("degrees3-within-half-unit");
+                                }
+                            }
+                        }
+                    }
+                }
+            }
+        }
+        cx.bulk_states(32, 32);
+        cx.tag("degrees3");
+    }
+
     // ---------------- part 5: sibling instances ----------------
     /// A cell holding several instances: (optional parent placement) o [sibling 1, sibling 2, a plain sibling]
     /// of one leaf, plus own shapes between the instances. Every flattened shape must be the image under the
@@ -807,7 +895,7 @@ impl Driver for C12 {
         let d = tier.pick(3, 6);
         Describe {
             rule: format!(
-                "single placements: reflect in {{f,t}} x angle in {{None,0,90,180,270,-90,-180,-270,-360,360,450,-630,-0}} x offsets {{0,1,-7,1000,-2^31,2^31-1}}^2 x every point of the 9x9 grid (-4..4)^2 plus the four i32 corners, judged three ways (from_instance == cascade(translate, cascade(rotate, reflect_vert)) == exact integer map); chains: every word of depth 1..={d} over the 8 orientations x 3 offsets per level, as cascaded Transforms on 6 probe points and through the real Layout::flatten on a nested layout holding a rectangle, an asymmetric L polygon, a path and a triangle stating its first vertex again at the end (shape-by-shape exact images; polygon orientation flips iff odd number of reflections); general angles: every integer degree 0..359 x reflect x 2 offsets x the grid and three large points, as from_instance and as the composition of translate, rotate and reflect_vert, each within 0.5+1e-5 of a double-precision reference with exact octant reduction; nested general angles: parent at every integer degree x reflect over a child in each of the 8 right-angle orientations and one general angle x 3 non-zero child offsets, as cascaded Transforms and through Layout::flatten, every point within half a unit of the exact real composition (rounded once); sibling instances: (no parent / a parent in each of the 8 orientations) over a cell holding three instances of one leaf - two in every pair of the 8 orientations x 2 offsets and a plain one, listed last / first / in the middle, the three named differently / all with an empty name / all with the same name - and an own rectangle, every flattened shape compared with the exact image under the placements on its own path only (multiset); angles next to a right angle: 90q + d for d in +-{{0.001, 0.004, 0.01, 0.05, 0.1, 0.25, 0.5, 0.75, 0.81, 1.5}} degrees and the fractional general angles 90q +- 22.5, +- 33.3, 44.999, 45.001, 67.5, -67.25 x reflect on points with coordinates up to 1e6, as from_instance, as a cascade over a plain child at (100000, 0) and through Layout::flatten, within half a unit. A state is one placement / chain word; non-trivial = not the identity orientation."
+                "single placements: reflect in {{f,t}} x angle in {{None,0,90,180,270,-90,-180,-270,-360,360,450,-630,-0}} x offsets {{0,1,-7,1000,-2^31,2^31-1}}^2 x every point of the 9x9 grid (-4..4)^2 plus the four i32 corners, judged three ways (from_instance == cascade(translate, cascade(rotate, reflect_vert)) == exact integer map); chains: every word of depth 1..={d} over the 8 orientations x 3 offsets per level, as cascaded Transforms on 6 probe points and through the real Layout::flatten on a nested layout holding a rectangle, an asymmetric L polygon, a path and a triangle stating its first vertex again at the end (shape-by-shape exact images; polygon orientation flips iff odd number of reflections); general angles: every integer degree 0..359 x reflect x 2 offsets x the grid and three large points, as from_instance and as the composition of translate, rotate and reflect_vert, each within 0.5+1e-5 of a double-precision reference with exact octant reduction; nested general angles: parent at every integer degree x reflect over a child in each of the 8 right-angle orientations and one general angle x 3 non-zero child offsets, as cascaded Transforms and through Layout::flatten, every point within half a unit of the exact real composition (rounded once); three nested general angles: top at every integer degree x reflect, the middle placement at the angle that brings the product of the two back to each of the 4 right angles (x reflect, 2 non-zero offsets), the lowest at a further general angle and offset, same two ways and same tolerance; sibling instances: (no parent / a parent in each of the 8 orientations) over a cell holding three instances of one leaf - two in every pair of the 8 orientations x 2 offsets and a plain one, listed last / first / in the middle, the three named differently / all with an empty name / all with the same name - and an own rectangle, every flattened shape compared with the exact image under the placements on its own path only (multiset); angles next to a right angle: 90q + d for d in +-{{0.001, 0.004, 0.01, 0.05, 0.1, 0.25, 0.5, 0.75, 0.81, 1.5}} degrees and the fractional general angles 90q +- 22.5, +- 33.3, 44.999, 45.001, 67.5, -67.25 x reflect on points with coordinates up to 1e6, as from_instance, as a cascade over a plain child at (100000, 0) and through Layout::flatten, within half a unit. A state is one placement / chain word; non-trivial = not the identity orientation."
             ),
             assumptions: vec!["general angles: the half unit is the statement's tolerance; 1e-5 covers double-precision evaluation".into()],
             excluded: vec!["non-integer angles and magnification".into()],
@@ -830,6 +918,7 @@ impl Driver for C12 {
         for deg in 0..360 {
             v.push(format!("DEG:{deg}"));
             v.push(format!("DEG2:{deg}"));
+            v.push(format!("DEG3:{deg}"));
         }
         for pi in 0..9 {
             for s1 in 0..16 {
@@ -869,6 +958,7 @@ impl Driver for C12 {
             }
             "DEG" => self.degrees(parts[1].parse().unwrap(), cx),
             "DEG2" => self.degrees2(parts[1].parse().unwrap(), cx),
+            "DEG3" => self.degrees3(parts[1].parse().unwrap(), cx),
             "SIB" => self.siblings(parts[1].parse().unwrap(), parts[2].parse().unwrap(), cx),
             "NEAR" => self.near(parts[1].parse().unwrap(), cx),
             _ => panic!("MACHINERY: C12 bad unit {unit}"),
@@ -895,6 +985,10 @@ impl Driver for C12 {
             let q: u32 = r.split(':').next().unwrap().parse().unwrap();
             return self.near(q, cx);
         }
+        if let Some(r) = key.strip_prefix("deg3:") {
+            let d: u32 = r.split(':').next().unwrap().parse().unwrap();
+            return self.degrees3(d, cx);
+        }
         if let Some(r) = key.strip_prefix("deg2:") {
             let d: u32 = r.split(':').next().unwrap().parse().unwrap();
             return self.degrees2(d, cx);
@@ -919,7 +1013,7 @@ impl Driver for C12 {
         json!({"case": key})
     }
     fn guards(&self, tier: Tier, stats: &Stats, _d: u64) -> Result<(), String> {
-        require_tags(stats, &["degrees2", "siblings", "near-right", "reflected", "plain", "none", "0", "90", "180", "270", "-90", "-270", "450", "-630", "depth1", "depth2", "depth3"])?;
+        require_tags(stats, &["degrees2", "degrees3", "siblings", "near-right", "reflected", "plain", "none", "0", "90", "180", "270", "-90", "-270", "450", "-630", "depth1", "depth2", "depth3"])?;
         if tier.is_thorough() {
             require_tags(stats, &["depth4", "depth5", "depth6"])?;
         }
